@@ -8,12 +8,12 @@ models it*, with an arbitrary network / adversary in between.
 * Receiving end = C06's `Conn` (`is_sender = False`).  The adversary chooses every byte that
   arrives, in whatever chunks (`NetOp.data`), and when the loss of the connection is reported
   (`NetOp.lost`); the application chooses when `_transfer_data` attaches its consumer
-  (`NetOp.attach`).  The records the C06 connection accepts off the wire and hands to
+  (`NetOp.attach onDone` = C06's script `consume (some xfersize) onDone`, for any callback script).  The records the C06 connection accepts off the wire and hands to
   `recordReceived` — `App.surfaced`, which C06 proves to be append-only and equal to the argument
   list of `recordReceived` (`recordReceived_spec`) — are the `record` events of the Xfer receiver
   (`rxTrace`); `attach` is its `connect`, `lost` its `lost`.
 * Sending end for the ack = C06's `Conn` (`is_sender = True`) under *any* C06 operation sequence
-  (`C06.Op`: bytes, reads, consumers, loss, close).  What `yield record_pipe.receive_record()`
+  (`C06.Op`: bytes, top-level calls of arbitrary re-entrant `Act` scripts — the sender's is a `read` —, loss).  What `yield record_pipe.receive_record()`
   gives the sender is the first record that connection hands to the application, parsed
   (`senderAck`); nothing handed over = the Deferred never fires or errbacks.
 
@@ -26,63 +26,16 @@ open WV WV.C04
 
 /-! ## surfaced is append-only under `dataReceived` (not stated in C06; proved here from its lemmas) -/
 
-theorem loop_mono (E : C06.Env) : ∀ (f : Nat) (c : C06.Conn), C06.ConsInv c.app →
-    c.app.surfaced <+: (C06.dataReceivedRECORDS E f c).1.app.surfaced ∧
-    C06.ConsInv (C06.dataReceivedRECORDS E f c).1.app := by
-  intro f
-  induction f with
-  | zero =>
-    intro c h
-    simp only [C06.dataReceivedRECORDS]
-    exact ⟨List.prefix_refl _, h⟩
-  | succ f ih =>
-    intro c h
-    unfold C06.dataReceivedRECORDS
-    cases hp : C06.parseFrame c.buf with
-    | none => exact ⟨List.prefix_refl _, h⟩
-    | some p =>
-      obtain ⟨enc, rest⟩ := p
-      simp only
-      cases hd : C06.decryptRecord E { c with buf := rest } enc with
-      | mk c2 res =>
-        cases res with
-        | error e =>
-          obtain ⟨ha, _, _, _⟩ := C06.decryptRecord_error hd
-          simp only at ha ⊢
-          rw [ha]
-          exact ⟨List.prefix_refl _, h⟩
-        | ok r =>
-          obtain ⟨hc2, _, _, _⟩ := C06.decryptRecord_ok hd
-          obtain ⟨s1, s2⟩ := C06.recordReceived_spec c.app r h
-          subst hc2
-          simp only
-          obtain ⟨i1, i2⟩ := ih { ({ c with buf := rest, nextReceiveNonce := c.nextReceiveNonce + 1 } : C06.Conn) with
-            app := C06.recordReceived c.app r } s2
-          refine ⟨?_, i2⟩
-          have hpre : c.app.surfaced <+: (C06.recordReceived c.app r).surfaced := by rw [s1]; exact List.prefix_append _ _
-          exact hpre.trans i1
-
 theorem dataReceived_mono (E : C06.Env) (c : C06.Conn) (d : Bytes) (h : C06.ConsInv c.app) :
     c.app.surfaced <+: (C06.dataReceived E c d).1.app.surfaced ∧ C06.ConsInv (C06.dataReceived E c d).1.app := by
-  cases hs : c.state with
-  | hungUp =>
-    rw [C06.dataReceived_hung E hs d]
-    exact ⟨List.prefix_refl _, h⟩
-  | records =>
-    rw [C06.dataReceived_records E hs d]
-    have hl := loop_mono E (({ c with buf := c.buf ++ d } : C06.Conn).buf.length + 1) { c with buf := c.buf ++ d } h
-    have hrxdef : C06.rx E { c with buf := c.buf ++ d } =
-        C06.dataReceivedRECORDS E (({ c with buf := c.buf ++ d } : C06.Conn).buf.length + 1) { c with buf := c.buf ++ d } := rfl
-    rw [← hrxdef] at hl
-    cases hrx : C06.rx E { c with buf := c.buf ++ d } with
-    | mk c2 res =>
-      rw [hrx] at hl
-      cases res with
-      | none => exact hl
-      | some e =>
-        refine ⟨?_, ?_⟩
-        · simp only [C06.hangUp]; rw [C06.emit_lose_surfaced]; exact hl.1
-        · intro hh; exact hl.2 hh
+  refine C06.dataReceived_appInv E (fun a => c.app.surfaced <+: a.surfaced ∧ C06.ConsInv a) ?_ ?_ c d
+    ⟨List.prefix_refl _, h⟩
+  · intro a r hP
+    obtain ⟨s1, s2⟩ := C06.recordReceived_spec a r hP.2
+    exact ⟨by rw [s1]; exact hP.1.trans (List.prefix_append _ _), s2⟩
+  · intro a hP
+    refine ⟨by rw [C06.emit_lose_surfaced]; exact hP.1, ?_⟩
+    intro hh; exact hP.2 hh
 
 theorem prefix_append_drop {α : Type} {l m : List α} (h : l <+: m) : l ++ m.drop l.length = m := by
   obtain ⟨t, rfl⟩ := h
@@ -93,12 +46,15 @@ theorem prefix_append_drop {α : Type} {l m : List α} (h : l <+: m) : l ++ m.dr
 /-- what the network and the application do at the receiving end -/
 inductive NetOp where
   | data (b : Bytes)     -- these bytes arrive (any bytes: honest, altered, replayed, invented; any chunking)
-  | attach               -- `_transfer_data` calls `record_pipe.writeToFile(f, xfersize, …)`
+  /-- `_transfer_data` calls `record_pipe.writeToFile(f, xfersize, …)`; `onDone` = whatever the callback on
+      its Deferred goes on to do with the connection (for the real receiver: `close()` after a good transfer,
+      nothing after a failed one — the theorems hold for every script) -/
+  | attach (onDone : List C06.Act)
   | lost                 -- `connectionLost` is reported
 
 def toC06 (x : Nat) : NetOp → C06.Op
   | .data b => .data b
-  | .attach => .consume (some x)
+  | .attach s => .call [.consume (some x) s]
   | .lost => .lost
 
 /-- the C06 connection under the schedule -/
@@ -113,7 +69,7 @@ def rxTrace (E : C06.Env) (x : Nat) : C06.Conn → List NetOp → List Ev
   | _, [] => []
   | c, .data b :: ops =>
     (newRecords c (C06.step E c (.data b))).map Ev.record ++ rxTrace E x (C06.step E c (.data b)) ops
-  | c, .attach :: ops => Ev.connect :: rxTrace E x (C06.step E c (.consume (some x))) ops
+  | c, .attach s :: ops => Ev.connect :: rxTrace E x (C06.step E c (.call [.consume (some x) s])) ops
   | c, .lost :: ops => Ev.lost :: rxTrace E x (C06.step E c .lost) ops
 
 /-- the Xfer receiver (file consumer, hashing, rename, ack) on the receiving C06 connection, which
@@ -124,7 +80,7 @@ def netRx {τ : Type} (E : C06.Env) (H : Hash) (Z : Zip τ) (x : Nat) (dirMode :
 
 def hasAttach : List NetOp → Bool
   | [] => false
-  | .attach :: _ => true
+  | .attach _ :: _ => true
   | _ :: ops => hasAttach ops
 
 def hasLost : List NetOp → Bool
@@ -170,11 +126,11 @@ theorem trace_records (E : C06.Env) (x : Nat) : ∀ (ops : List NetOp) (c : C06.
         exact prefix_append_drop m1
       rw [hnew, this]
       simp [connRun, C06.run, toC06]
-    | attach =>
-      obtain ⟨s1, s2⟩ := C06.connectConsumer_spec c.app (some x) h
-      have := ih (C06.step E c (.consume (some x))) (by simpa [C06.step] using s2)
+    | attach sc =>
+      obtain ⟨s1, s2⟩ := C06.appCall_spec c.app [.consume (some x) sc] h
+      have := ih (C06.step E c (.call [.consume (some x) sc])) (by simpa [C06.step] using s2)
       simp only [rxTrace, records]
-      have hs : (C06.step E c (.consume (some x))).app.surfaced = c.app.surfaced := by simpa [C06.step] using s1
+      have hs : (C06.step E c (.call [.consume (some x) sc])).app.surfaced = c.app.surfaced := by simpa [C06.step] using s1
       rw [← hs, this]
       simp [connRun, C06.run, toC06]
     | lost =>
@@ -194,7 +150,7 @@ theorem trace_sawConnect (E : C06.Env) (x : Nat) : ∀ (ops : List NetOp) (c : C
     intro c
     cases op with
     | data b => simp only [rxTrace, sawConnect_map_append, hasAttach]; exact ih _
-    | attach => rfl
+    | attach sc => rfl
     | lost => simp only [rxTrace, Proofs.C04.sawConnect, hasAttach]; exact ih _
 
 theorem trace_sawLost (E : C06.Env) (x : Nat) : ∀ (ops : List NetOp) (c : C06.Conn),
@@ -206,7 +162,7 @@ theorem trace_sawLost (E : C06.Env) (x : Nat) : ∀ (ops : List NetOp) (c : C06.
     intro c
     cases op with
     | data b => simp only [rxTrace, sawLost_map_append, hasLost]; exact ih _
-    | attach => simp only [rxTrace, Proofs.C04.sawLost, hasLost]; exact ih _
+    | attach sc => simp only [rxTrace, Proofs.C04.sawLost, hasLost]; exact ih _
     | lost => rfl
 
 theorem init_consInv (b : Bool) (left : Bytes) : C06.ConsInv (C06.Conn.init b left).app := by
@@ -300,7 +256,7 @@ theorem trace_append_lost (E : C06.Env) (x : Nat) : ∀ (ops : List NetOp) (c : 
     intro c
     cases op with
     | data b => simp only [List.cons_append, rxTrace, ih, List.append_assoc]
-    | attach => simp only [List.cons_append, rxTrace, ih]
+    | attach sc => simp only [List.cons_append, rxTrace, ih]
     | lost => simp only [List.cons_append, rxTrace, ih]
 
 theorem hasLost_map_data (cs : List Bytes) : hasLost (cs.map NetOp.data) = false := by
@@ -314,21 +270,21 @@ theorem hasAttach_map_data (cs : List Bytes) : hasAttach (cs.map NetOp.data) = f
   | cons a t ih => simpa [hasAttach] using ih
 
 /-- the schedule "attach, then these chunks" on the C06 side is C06's `feed` after its `consume` step -/
-theorem connRun_attach_feed (E : C06.Env) (x : Nat) (c : C06.Conn) (cs : List Bytes) :
-    connRun E x c (.attach :: cs.map NetOp.data) = C06.feed E (C06.step E c (.consume (some x))) cs := by
+theorem connRun_attach_feed (E : C06.Env) (x : Nat) (c : C06.Conn) (sc : List C06.Act) (cs : List Bytes) :
+    connRun E x c (.attach sc :: cs.map NetOp.data) = C06.feed E (C06.step E c (.call [.consume (some x) sc])) cs := by
   simp [connRun, C06.run, C06.feed, toC06, List.map_map, Function.comp_def]
 
 /-- the application state right after `writeToFile(f, x)` on a fresh connection -/
-theorem attach_fresh (E : C06.Env) (x : Nat) (b : Bool) :
-    C06.step E (C06.Conn.init b) (.consume (some x)) =
-      { C06.Conn.init b with app := (C06.connectConsumer C06.App.init (some x)).1 } := by
+theorem attach_fresh (E : C06.Env) (x : Nat) (b : Bool) (sc : List C06.Act) :
+    C06.step E (C06.Conn.init b) (.call [.consume (some x) sc]) =
+      { C06.Conn.init b with app := C06.appCall C06.App.init [.consume (some x) sc] } := by
   simp [C06.step, C06.Conn.init]
 
-theorem attach_fresh_facts (x : Nat) :
-    (C06.connectConsumer C06.App.init (some x)).1.surfaced = [] ∧
-    C06.ConsInv (C06.connectConsumer C06.App.init (some x)).1 := by
+theorem attach_fresh_facts (x : Nat) (sc : List C06.Act) :
+    (C06.appCall C06.App.init [.consume (some x) sc]).surfaced = [] ∧
+    C06.ConsInv (C06.appCall C06.App.init [.consume (some x) sc]) := by
   have hi : C06.ConsInv C06.App.init := by intro h; simp [C06.App.init] at h
-  obtain ⟨s1, s2⟩ := C06.connectConsumer_spec C06.App.init (some x) hi
+  obtain ⟨s1, s2⟩ := C06.appCall_spec C06.App.init [.consume (some x) sc] hi
   refine ⟨?_, s2⟩
   rw [s1]; simp [C06.App.init, C06.App.surfaced, C06.App.delivered]
 
